@@ -9,6 +9,75 @@ import traceback
 from . import common
 
 
+def _kill_descendants():
+    """SIGKILL every descendant process (pool workers, Lean drivers, strace children) before a forced exit."""
+    import signal
+
+    me = os.getpid()
+    kids = {}
+    for d in os.listdir("/proc"):
+        if d.isdigit():
+            try:
+                with open(f"/proc/{d}/stat") as f:
+                    st = f.read()
+                ppid = int(st.rsplit(")", 1)[1].split()[1])
+                kids.setdefault(ppid, []).append(int(d))
+            except Exception:  # noqa: BLE001
+                pass
+    todo, seen = [me], set()
+    while todo:
+        p = todo.pop()
+        for c in kids.get(p, []):
+            if c not in seen:
+                seen.add(c)
+                todo.append(c)
+    for c in seen:
+        try:
+            os.kill(c, signal.SIGKILL)
+        except Exception:  # noqa: BLE001
+            pass
+
+
+def _start_watchdog(ck, tier):
+    """A check must end.  When the whole run exceeds its wall-clock limit (quick 900 s, thorough 3600 s; the normal
+    quick run is under 2 min) the real code or the harness hangs.  On a tree identical to its HEAD that is our
+    machinery's trouble (exit 2).  On a working tree that differs from HEAD the hang is attributable to the
+    change: reported as a broken correspondence (with the stacks of all threads in the replay file), together
+    with every failing input found before the hang."""
+    import threading
+
+    limit = float(os.environ.get("VERIF_WALL_LIMIT", "900" if tier == "quick" else "3600"))
+
+    def fire():
+        try:
+            stacks = {}
+            for tid, fr in sys._current_frames().items():
+                stacks[str(tid)] = [l.rstrip() for l in traceback.format_stack(fr)][-14:]
+            print(f"[{ck.prop}] wall-clock limit of {limit:.0f} s exceeded", file=sys.stderr)
+            if not common.tree_differs_from_head():
+                print(json.dumps(stacks, indent=1)[-6000:], file=sys.stderr)
+                print(f"[{ck.prop}] HARNESS ERROR: timeout on a tree identical to its HEAD", file=sys.stderr)
+                code = 2
+            else:
+                ck.count("L2_run_did_not_end_within_wall_limit")
+                ck.mismatch({"harness_timeout_s": limit},
+                            {"stacks": stacks, "meaning": "the check did not end within its wall-clock limit on the changed tree "
+                                                          "(it ends in minutes on the tree's HEAD): the implementation hangs or is "
+                                                          "far slower under the harness's scenarios; correspondence not established"})
+                code = ck.finish()
+            sys.stdout.flush()
+            sys.stderr.flush()
+        except Exception:  # noqa: BLE001
+            traceback.print_exc()
+            code = 2
+        _kill_descendants()
+        os._exit(code)
+
+    t = threading.Timer(limit, fire)
+    t.daemon = True
+    t.start()
+
+
 def main():
     ap = argparse.ArgumentParser()
     ap.add_argument("prop")
@@ -24,6 +93,7 @@ def main():
         print(f"no check for {prop}: {e}", file=sys.stderr)
         return 2
     ck = common.Check(prop, a.tier, seed, extra_modules=getattr(mod, "EXTRA_LEAN_MODULES", ()))
+    _start_watchdog(ck, a.tier)
     try:
         if hasattr(mod, "pre_lean"):
             mod.pre_lean(ck)  # e.g. the C07 translator regenerates Generated/*.lean from /repo
